@@ -81,7 +81,8 @@ def calls_for(kind, reduced=False):
         i1, s1 = schema.int(1), schema.str("a")
         elems = [[], [i1], [i1, s1], [schema.int, ...], [..., schema.int], [..., schema.int, ...], [...], [..., ...],
                  [1], [i1, ..., s1], [..., i1, s1], [i1, s1, ...], [schema.int, 2], [None], [[schema.int]], [..., ..., i1],
-                 schema.int, schema.list(schema.int), schema.any, [schema.int.min(0)]]
+                 schema.int, schema.list(schema.int), schema.any, [schema.int.min(0)], [schema.any, i1], [schema.any],
+                 [i1, schema.any, s1]]
         add("__call__", one(elems + W))
         lens1 = [0, 1, 2, 3, -1, True]
         add("len", one(lens1 + [None, "x", 1.5, ..., [], Obj()]))
@@ -191,6 +192,13 @@ def run_chain(ctx, kind, chain):
         except dec.DecodeError:
             ctx.count("undecodable_result")
             continue
+        # an exact element list (no ...) fixes the length: a len form that does not admit it contradicts it
+        if spec["k"] == "list" and spec.get("form") == "elems" and "..." not in spec["elems"] and spec.get("len") is not None:
+            from ..spec import len_ok
+            ctx.count("exact_list_len_checked")
+            if not len_ok(spec["len"], len(spec["elems"])):
+                ctx.violation("len_contradicts_exact_element_list", {**show_chain(kind, chain[:i + 1]), "result": repr(s)[:200],
+                                                                     "elements": len(spec["elems"]), "len": list(spec["len"])})
         try:
             has, val = carried_value(spec)
         except Exception:
